@@ -2,6 +2,7 @@
 MANIFEST.json from it."""
 from . import c12 as _c12
 from . import c01_kani as _c01k
+from . import c06_roundtrip as _c06r
 
 TECH = ("contract-based deductive verification: Verus discharges contracts woven into the real functions extracted from "
         "/repo on every run (units: %s); vacuity canary copies; failures mapped to the property by contract labels")
@@ -37,10 +38,13 @@ PROPS = {
     "C05": _p(["generate", "main", "find"], COMMON_TRUST,
               "exact verdict of check_references (ok iff files found, not interrupted, tree_missing == 0); the three `missing` filters proved equal to one spec "
               "predicate; reported locations are the entries' line/column (pest's line_col trusted); count printed only on the all-success path"),
-    "C06": _p(["generate", "find", "entry", "directive"], COMMON_TRUST + " NOT DECIDED: that the PEG grammar recognises the edited statement again (grammar clause).",
+    "C06": _p(["generate", "find", "entry", "directive"], COMMON_TRUST + " The grammar clause (the PEG parser recognises the edited statement again) is NOT proved: pest's generated "
+              "parser is outside both verifiers; it is covered by a BOUNDED native run (labelled bounded, not counted as proved).",
               "clauses proved: no-op on a tree without missing references (both scan and cached path, lock value unchanged); inserted token reads back: "
               "token_rule(inserted token) == Some(id) and extract_spec == token_rule (relative to the regex-pattern and parse axioms of spec/token_link.rs), "
-              "structured `ref = N` parses back to N"),
+              "structured `ref = N` parses back to N. Bounded stand-in for the parser: 384 (thorough 576) canonical statements x 2 styles run through the release "
+              "binary edit -> check -> edit and re-read by the real library",
+              extra=[("roundtrip_bounded", _c06r.run)]),
     "C07": _p(["generate", "main", "context"], COMMON_TRUST + " POSIX rename atomicity; async-std write-cache model; fresh temp name. Operation granularity "
               "(not inside a syscall, not power loss).",
               "atomic_inv is a precondition of every mutating shim (= every boundary between two filesystem operations) and a postcondition of every function; "
